@@ -11,6 +11,9 @@ import (
 	"path/filepath"
 	"strings"
 
+	"grol.io/grol/ast"
+	"grol.io/grol/lexer"
+	"grol.io/grol/token"
 	"verifharness/common"
 	. "verifharness/common"
 )
@@ -64,6 +67,102 @@ func one(c *Ctx, src []byte, toModel bool, s *st) {
 		}
 	}
 }
+
+// ---- the fragment of the proved theorem (coq/proofs/Roundtrip_expr.v): identifiers, integer literals, prefix and binary
+// infix operators.  The theorem is about the token sequence body(e); this stream ties that sequence to the real formatter:
+// lexing what the formatter prints (both modes) must give exactly the tokens the Coq definition computes.
+
+func inFragment(n ast.Node) bool {
+	switch v := n.(type) {
+	case *ast.Identifier:
+		return v.Type() == token.IDENT
+	case *ast.IntegerLiteral:
+		return true
+	case *ast.PrefixExpression:
+		return v.Right != nil && inFragment(v.Right)
+	case *ast.InfixExpression:
+		if v.Left == nil || v.Right == nil {
+			return false
+		}
+		if r, ok := v.Right.(*ast.InfixExpression); ok && v.Type() == token.PLUS && r.Type() == token.PLUS {
+			return false // a + (b + c): recorded finding, excluded from the theorem's fragment (wf_ex)
+		}
+		return inFragment(v.Left) && inFragment(v.Right)
+	}
+	return false
+}
+
+func lexedTokens(txt []byte) string {
+	l := lexer.NewBytes(txt)
+	var out []string
+	for i := 0; i < len(txt)+3; i++ {
+		t := l.NextToken()
+		if t.Type() == token.EOF {
+			break
+		}
+		out = append(out, fmt.Sprintf("%d.%s", t.Type(), Hx([]byte(t.Literal()))))
+	}
+	return strings.Join(out, ",")
+}
+
+func fragCase(c *Ctx, src []byte) {
+	c.Eval()
+	line := fmt.Sprintf("TL %s %s", Hx(src), Convs(src))
+	prog, ok := ParseClean(src)
+	if !ok {
+		c.Case(line, "N=notclean C=notclean")
+		c.Count("frag=notclean")
+		return
+	}
+	if len(prog.Statements) != 1 || !inFragment(prog.Statements[0]) {
+		c.Case(line, "N=notfrag C=notfrag")
+		c.Count("frag=notfrag")
+		return
+	}
+	var obs [2]string
+	for i, compact := range []bool{false, true} {
+		txt, panicked := Format(prog, compact)
+		if panicked {
+			obs[i] = "printpanic"
+			continue
+		}
+		obs[i] = lexedTokens(txt)
+		// direct oracle: the round trip itself
+		if r, _ := RoundTrip(src, compact); r != "same" {
+			c.Fail("fragment-roundtrip:"+r, "TL "+Hx(src), fmt.Sprintf("compact=%v src=%q printed=%q", compact, src, txt))
+		}
+	}
+	c.Case(line, "N="+obs[0]+" C="+obs[1])
+	c.Count("frag=in")
+	c.NonTrivial("frag:" + DumpAST(prog))
+}
+
+var fragBin = []string{"+", "-", "*", "/", "%", "==", "!=", "<", "<=", ">", ">=", "<<", ">>", "&&", "||", "&", "|", "^", ":", "=", ":="}
+var fragPre = []string{"!", "-", "+", "~", "^", "++", "--"}
+
+func fragExpr(r *Rng, d int) string {
+	k := r.Intn(10)
+	if d <= 0 || k < 2 {
+		if r.Pct(65) {
+			return genFragIdents[r.Intn(len(genFragIdents))]
+		}
+		return genFragInts[r.Intn(len(genFragInts))]
+	}
+	par := func(s string, pct int) string {
+		if r.Pct(pct) {
+			return "(" + s + ")"
+		}
+		return s
+	}
+	if k < 4 {
+		return fragPre[r.Intn(len(fragPre))] + par(fragExpr(r, d-1), 60)
+	}
+	sp := []string{" ", ""}[r.Intn(2)]
+	return par(fragExpr(r, d-1), 45) + sp + fragBin[r.Intn(len(fragBin))] + sp + par(fragExpr(r, d-1), 55)
+}
+
+var genFragIdents = []string{"a", "b", "c", "x", "foo", "_z1", "n"}
+var genFragInts = []string{"0", "1", "42", "007", "0x1F", "0b101", "1_000", "9223372036854775807"}
 
 // operator-pair matrix: every parent/child pair, child on either side, explicit source parentheses
 func matrix(c *Ctx, s *st, depth3 bool) {
@@ -128,12 +227,15 @@ func matrix(c *Ctx, s *st, depth3 bool) {
 func run(c *Ctx) {
 	c.Rule = "operator-pair matrix (every parent form x every child form, child parenthesised in the source, both print modes; depth 3 in thorough); " +
 		"grammar-generated programs (nesting <= 4, statements, blocks, functions, lambdas, comments; a stream avoiding recorded findings and a stream exercising them); " +
-		"literal forms and strings over the byte universe; byte mutations of the shipped examples. non-trivial = distinct clean trees"
+		"fragment stream for the proved theorem (identifiers, integers, prefix and infix operators with random redundant parentheses, depth <= 5: the formatter's output must lex to the Coq token sequence body(e) in both modes, and must round-trip); literal forms and strings over the byte universe; byte mutations of the shipped examples. non-trivial = distinct clean trees"
 	if c.ReplayCase != "" {
 		f := strings.Fields(c.ReplayCase)
 		var s st
 		if len(f) == 2 && f[0] == "RT" {
 			one(c, Unhx(f[1]), true, &s)
+		}
+		if len(f) >= 2 && f[0] == "TL" {
+			fragCase(c, Unhx(f[1]))
 		}
 		return
 	}
@@ -154,6 +256,18 @@ func run(c *Ctx) {
 	for i := 0; i < n; i++ {
 		g := &Gen{R: c.R, O: GenOpts{AvoidKnown: i%5 != 0, Comments: i%3 == 0, MaxDepth: 4}}
 		one(c, []byte(g.Program()), true, &s)
+	}
+	// the fragment of the proved theorem: formatter output lexes to body(e) (both modes), and round-trips
+	for _, src := range []string{"a", "1", "-a", "-(-a)", "a+b", "a-(b-c)", "(a-b)-c", "a*(b+c)", "-(a+b)*c - d", "!(a&&b)||c", "a=b=c", "a=(b=c)",
+		"a+(b+c)", "(a+b)+c", "a:b", "++a", "a - -b", "a + ++b", "~(a|b)^c", "a<(b<c)", "0x1F+007", "a+(b*c)+d", "((a))", "-(1)", "a := b := 1", "a:=(b:=1)"} {
+		fragCase(c, []byte(src))
+	}
+	nf := 2500
+	if c.Thorough() {
+		nf = 60000
+	}
+	for i := 0; i < nf; i++ {
+		fragCase(c, []byte(fragExpr(c.R, 1+c.R.Intn(5))))
 	}
 	// strings over the byte universe and number forms
 	for i := 0; i < 400; i++ {
